@@ -28,11 +28,13 @@ func VerifH_serveHTTP_json() {
 	rule.Body = bodySel
 	md := &fakeMethod{full: "vf.S.M0", in: in, out: out, opts: &fakeOpts{rule: rule}}
 	svc := &fakeSvc{full: "vf.S", methods: &fakeMethodList{list: []*fakeMethod{md}}}
-	mux, err := NewMux(FilesOption(vfRegistry(svc)))
+	rec := &fakeCodec{name: "fake"}
+	mux, err := NewMux(FilesOption(vfRegistry(svc)), CodecOption("application/x", rec)) // a user codec under an extra content type
 	if err != nil {
 		vfFail("NewMux failed")
 	}
 	srv := &vfServer{in: in, out: out, reply: newFakeMsg(out)}
+	srv.reply.payload = []byte("REPLY")
 	rv := vfPlainString(2)
 	srv.reply.vals["r"] = protoreflect.ValueOfString(rv)
 	sd := &grpc.ServiceDesc{ServiceName: "vf.S", Methods: []grpc.MethodDesc{{MethodName: "M0", Handler: vfUnaryHandler}}}
@@ -50,8 +52,13 @@ func VerifH_serveHTTP_json() {
 		query = "g=" + gv
 	}
 	h := http.Header{"Content-Type": []string{"application/json"}}
-	if vfBool() {
+	acceptX := false
+	switch vfChoice(3) {
+	case 1:
 		h["Accept"] = []string{"application/json"}
+	case 2:
+		h["Accept"] = []string{"application/x"} // the reply must then come from the user codec
+		acceptX = true
 	}
 	r := &http.Request{
 		Method: "POST", URL: &url.URL{Path: "/aa/" + capture, RawQuery: query}, Header: h,
@@ -67,9 +74,15 @@ func VerifH_serveHTTP_json() {
 	sub := got.subs["h"]
 	vfCheck(sub != nil && sub.str("k") == kv, "nested field sent in the JSON body not in the request message")
 	ct := w.sentHeader["Content-Type"]
-	vfCheck(len(ct) == 1 && ct[0] == "application/json", "JSON reply not labelled application/json")
-	back, ok := refJSONStringMember(w.body, "r")
-	vfCheck(ok && back == rv, "the reply decoded from the response body differs from the handler's reply")
+	if acceptX {
+		vfCheck(len(ct) == 1 && ct[0] == "application/x", "a codec registered under the accepted content type was not negotiated")
+		vfCheck(vfBytesEq(w.body, []byte("REPLY")), "reply body is not what the accepted codec produced")
+		vfCover("accept-user-codec")
+	} else {
+		vfCheck(len(ct) == 1 && ct[0] == "application/json", "JSON reply not labelled application/json")
+		back, ok := refJSONStringMember(w.body, "r")
+		vfCheck(ok && back == rv, "the reply decoded from the response body differs from the handler's reply")
+	}
 	if bodySel == "*" {
 		vfCover("body-star")
 	} else {
